@@ -40,6 +40,11 @@ enum Family {
     Stall { at: u64 },
     /// keep-alive 0 (v4): run for `for_s` virtual seconds
     Zero { for_s: u64 },
+    /// the first connection ends while a PINGREQ is unanswered (`reset` = false: the broker is silent
+    /// from `at` ms on, the client reports it; `reset` = true: pings are never answered and the broker
+    /// closes the socket at `at` ms, K < at < 2K); the event loop reconnects to a healthy broker and
+    /// the keep-alive clauses are judged on that second connection
+    Reconnect { at: u64, reset: bool },
     /// (v5) the CONNACK carries `server_keep_alive = s`
     ServerKeepAlive { s: u16 },
     /// connect / handshake timing: the transport connects after `accept` ms (None = never), the
@@ -133,6 +138,20 @@ fn build(case: &Case) -> Scenario {
         Family::Zero { for_s } => {
             run_ms = for_s * 1000;
         }
+        Family::Reconnect { at, reset } => {
+            let mut first = ConnPolicy::normal(false);
+            if *reset {
+                first.rules.insert(On::PingReq, RuleSeq::normal_then(0, Reply::Drop));
+                first.close_at_ms = Some(*at);
+            } else {
+                first.silent_from_ms = Some(*at);
+            }
+            // the background traffic belongs to the second (judged) connection
+            scn.conns = vec![ConnPlan { policy: first, fault: Fault::NONE }, ConnPlan { policy, fault: Fault::NONE }];
+            scn.stop.when = vec![When::AfterErr(1), When::AtMs(run_ms)];
+            scn.horizon_ms = run_ms + 2 * k + 5000;
+            return scn;
+        }
         Family::ServerKeepAlive { s } => {
             policy.connack = ConnAckRule::Send {
                 session_present: false,
@@ -208,6 +227,7 @@ fn shape(case: &Case) -> u64 {
         Family::Silence { at } => format!("silence:{}", at * 8 / k),
         Family::Stall { at } => format!("stall:{}", at * 8 / k),
         Family::Zero { .. } => "zero".into(),
+        Family::Reconnect { at, reset } => format!("reconnect:{}:{reset}", at * 8 / k),
         Family::ServerKeepAlive { s } => format!("ska:{s}"),
         Family::Connect {
             accept,
@@ -337,7 +357,19 @@ fn verdicts(case: &Case, log: &RunLog, stats: &mut Stats) -> Vec<Record> {
     }
 
     // ---------------- established-connection clauses
-    let Some(connack) = log.connack_of(0) else {
+    // the connection the clauses are judged on
+    let j = if matches!(case.family, Family::Reconnect { .. }) { 1 } else { 0 };
+    if j == 1 {
+        // the premise: the first connection ended with a PINGREQ outstanding
+        let c0_pings = log.wire_of(0, Dir::C2B).filter(|w| w.pk.kind == Kind::PingReq).count();
+        let c0_pongs = log.wire_of(0, Dir::B2C).filter(|w| w.pk.kind == Kind::PingResp).count();
+        if log.end_of(0).is_none() || c0_pings <= c0_pongs {
+            stats.add_extra("reconnect_premise_not_met", 1);
+            return out;
+        }
+        stats.corner("reconnect-after-unanswered-ping");
+    }
+    let Some(connack) = log.connack_of(j) else {
         stats.inconclusive.push(format!(
             "keep-alive scenario never got a CONNACK: {} {:?}",
             serde_json::to_string(case).unwrap_or_default(),
@@ -346,15 +378,15 @@ fn verdicts(case: &Case, log: &RunLog, stats: &mut Stats) -> Vec<Record> {
         return out;
     };
     let t0 = connack.at;
-    let err = log.polls.iter().find(|p| p.err().is_some());
+    let err = log.end_of(j);
     let t_end = err.map(|p| p.at).unwrap_or(log.end_ms);
     let pings: Vec<Ms> = log
-        .wire_of(0, Dir::C2B)
+        .wire_of(j, Dir::C2B)
         .filter(|w| w.pk.kind == Kind::PingReq)
         .map(|w| w.at)
         .collect();
     let pongs: Vec<Ms> = log
-        .wire_of(0, Dir::B2C)
+        .wire_of(j, Dir::B2C)
         .filter(|w| w.pk.kind == Kind::PingResp)
         .map(|w| w.at)
         .collect();
@@ -521,6 +553,7 @@ fn run_case(ctx: &Ctx, stats: &mut Stats, case: &Case) {
             Family::Silence { .. } => "silence",
             Family::Stall { .. } => "stall",
             Family::Zero { .. } => "zero",
+            Family::Reconnect { .. } => "reconnect",
             Family::ServerKeepAlive { .. } => "server-keep-alive",
             Family::Connect { .. } => "connect",
         }
@@ -699,6 +732,28 @@ fn workload(ctx: &Ctx, shard: usize, seed: u64) -> Stats {
                 }
             }
         }
+        // (7) a connection that ends with a PINGREQ outstanding, then a healthy one on the same event loop
+        for (ver, ks) in [("v4", 1u64), ("v4", 5), ("v5", 5), ("v5", 60)] {
+            let k = ks * 1000;
+            for reset in [false, true] {
+                for slot in [1u64, 3, 6] {
+                    for (incoming, outgoing) in flows(&mut rng, k, slot, jitter) {
+                        let j = if jitter { rng.below(k / 8) } else { 0 };
+                        // silence: anywhere in the first interval; reset: strictly between the first ping (K) and the second tick (2K)
+                        let at = if reset { k + (slot * k / 8 + j).clamp(1, k - 1) } else { (slot * k / 8 + j).max(1) };
+                        let case = Case {
+                            ver: ver.into(),
+                            k_s: ks,
+                            family: Family::Reconnect { at, reset },
+                            incoming,
+                            outgoing: if reset { None } else { outgoing },
+                            run_ms: at + 2 * k + 3 * k + 500,
+                        };
+                        run_case(ctx, &mut stats, &case);
+                    }
+                }
+            }
+        }
         // (5) MQTT 5: the server overrides the keep-alive in the CONNACK
         for sk in [0u16, 1, 2, 7] {
             for slot in [0u64, 5] {
@@ -806,6 +861,7 @@ pub fn prop() -> Prop {
                 ("pingresp-at-K-1ms", 20),
                 ("silence", 100),
                 ("zero-keepalive", 4),
+                ("reconnect-after-unanswered-ping", 20),
                 ("connect-timeout", 20),
                 ("ping-interval", 500),
                 ("no-false-alarm", 200),
